@@ -197,6 +197,9 @@ func (g *Gun) Shoot(am core.Ammo) {
 func (g *Gun) shoot(ammo *ammo.Ammo) {
 	code := 0
 	sample := netsample.Acquire(ammo.Tag)
+	if sample.Tags() == "" {
+		sample.AddTag("__EMPTY__")
+	}
 	defer func() {
 		sample.SetProtoCode(code)
 		g.Aggr.Report(sample)
